@@ -54,7 +54,7 @@ def configs(tier, seed):
                             allc.append(dict(fn=fn, x=list(x), shape=shape, axis=ax, offset=off))
                     else:
                         allc.append(dict(fn=fn, x=list(x), shape=shape, axis=ax))
-    for c in C.pick(allc, 260 if tier == 'quick' else 2600, rng):
+    for c in C.pick(allc, 260 if tier == 'quick' else len(allc), rng):
         out.append(dict(c, route=rng.choice(('numpy', 'method'))))
     pc = []
     for fn in ('prod', 'cumprod'):
@@ -65,14 +65,14 @@ def configs(tier, seed):
                     continue
                 for x in _fmts(6):
                     pc.append(dict(fn=fn, x=list(x), shape=shape, axis=ax))
-    for c in C.pick(pc, 60 if tier == 'quick' else 600, rng):
+    for c in C.pick(pc, 60 if tier == 'quick' else len(pc), rng):
         out.append(dict(c, route=rng.choice(('numpy', 'method'))))
     dc = []
     for (sa, sb) in (([3], [3]), ([2, 2], [2, 2]), ([3, 3], [3]), ([2, 3], [3, 2]), ([2], [2, 2])):
         for x in _fmts(8):
             for y in _fmts(8):
                 dc.append(dict(fn='dot', x=list(x), y=list(y), shape=sa, shape2=sb, axis=None))
-    for c in C.pick(dc, 60 if tier == 'quick' else 800, rng):
+    for c in C.pick(dc, 60 if tier == 'quick' else 6000, rng):
         out.append(dict(c, route=rng.choice(('numpy', 'method'))))
     return out
 
